@@ -186,6 +186,21 @@ fn classify(ex: &refvm::RefExec, expected: &Option<RVal>, ops: &[ROp], st: &mut 
     if ex.jumps_taken > 0 {
         st.class("jump-taken");
     }
+    // per-opcode reach of the generated (not enumerated) programs: in how many programs that ended in success the
+    // opcode was executed
+    if ops.len() > 6 && expected.is_some() {
+        for k in ex.executed_kinds.iter() {
+            st.class(opk(*k));
+        }
+    }
+    if ex.sig_ok > 0 {
+        st.class("signature-accepted");
+    }
+}
+
+fn opk(k: u8) -> &'static str {
+    static T: std::sync::OnceLock<Vec<&'static str>> = std::sync::OnceLock::new();
+    T.get_or_init(|| (0..256).map(|k| &*Box::leak(format!("ok-run-executed-op-0x{:02x}", k).into_boxed_str())).collect())[k as usize]
 }
 
 /// Differential execution through Covenant::execute on a transaction + environment.
